@@ -8,13 +8,14 @@
 (* A token is what one directive contributes once the scanner has cut it   *)
 (* into lexemes:  [t |-> "D", k, p, a, e, b, c]  (kind, parameters,         *)
 (* annotation, explicit "(" flag, body id, response code),  [t |-> "C"]    *)
-(* for ")".                                                                *)
+(* for ")",  [t |-> "O"] for a "(" beyond the one the directive's flag     *)
+(* stands for.                                                             *)
 (*                                                                         *)
 (* T == [nodes, ctx, res, errTok]                                          *)
 (*   nodes : sequence of [k,p,a,e,b,c,parent,tok] in creation order        *)
 (*           (parent = 0 for a root directive)                             *)
 (*   ctx   : node id of core.currentContextDirective (0 = root context)    *)
-(*   res   : "ok" | "ctxerr" | "noctx" | "unclosed"                        *)
+(*   res   : "ok" | "ctxerr" | "noctx" | "noopen" | "unclosed"             *)
 (***************************************************************************)
 EXTENDS Lang, TLC
 
@@ -65,10 +66,20 @@ CloseAt(T, c, i) ==
 
 Close(T, i) == CloseAt(T, T.ctx, i)
 
+\* "(" opens the context of the directive it follows -- the one created by the previous token.  A "(" that follows no
+\* directive (it stands first, or behind ")") or follows a directive which has its "(" already has nothing to open:
+\* it would never be closed.
+OpenExtra(T, i) ==
+  LET n == Len(T.nodes) IN
+  IF n = 0 THEN Fail(T, "noopen", i)
+  ELSE IF T.nodes[n].tok # i - 1 \/ T.nodes[n].e THEN Fail(T, "noopen", i)
+  ELSE [T EXCEPT !.nodes[n].e = TRUE]
+
 \* One token.
 TreeStep(T, tok, i) ==
   IF T.res # "ok" THEN T
   ELSE IF tok.t = "D" THEN Resolve(T, tok, i)
+  ELSE IF tok.t = "O" THEN OpenExtra(T, i)
   ELSE Close(T, i)
 
 \* The chain of open contexts, outermost first, as node ids.
